@@ -1323,7 +1323,9 @@ class Converter:
 
         for pv in loop_state_vars:
             onnx_var = self._py_var_to_onnx_var(pv, self._source_of(loop_stmt))
-            if onnx_var.name not in self._current_fn.assigned_names:
+            if onnx_var.name not in self._current_fn.assigned_names or any(
+                o.name == onnx_var.name for o in self._current_fn.outputs
+            ):
                 # When converting the loop-body into a graph, we need to handle
                 # identity assignments of the form "x = y" inside the loop body
                 # specially if y represents a value computed outside the loop body.
@@ -1368,7 +1370,9 @@ class Converter:
             if python_var in self._current_scope():
                 python_var_value = self._current_scope()[python_var]
                 output = self._to_onnx_var(python_var_value, python_var)
-                if output.name not in self._current_fn.assigned_names:
+                if output.name not in self._current_fn.assigned_names or any(
+                    o.name == output.name for o in self._current_fn.outputs
+                ):
                     # TODO (Rama): Unclear how this can happen. If python_var is in current_scope,
                     # then it should have been assigned a value in the current graph.
                     #
